@@ -1,6 +1,8 @@
 import Lean.Data.Json
 import DvcData.Model.Basic
 import DvcData.Model.Merge
+import DvcData.Model.Md5
+import DvcData.Model.Hash
 open Lean DvcData
 
 /-! Line-protocol driver: one JSON request per line on stdin, one JSON answer per line on stdout.
@@ -24,6 +26,58 @@ def pairList (j : Json) : Except String (List (String × String)) := do
 def pairsJson (l : List (String × String)) : Json :=
   Json.arr (l.map fun (a, b) => Json.arr #[Json.str a, Json.str b]).toArray
 
+def hexVal (c : Char) : Except String Nat :=
+  let n := c.toNat
+  if 48 ≤ n ∧ n ≤ 57 then pure (n - 48)
+  else if 97 ≤ n ∧ n ≤ 102 then pure (n - 87)
+  else throw "bad hex"
+
+def unhex (s : String) : Except String (List UInt8) := do
+  let rec go : List Char → List UInt8 → Except String (List UInt8)
+    | [], acc => pure acc.reverse
+    | [_], _ => throw "odd hex"
+    | a :: b :: r, acc => do go r (UInt8.ofNat ((← hexVal a) * 16 + (← hexVal b)) :: acc)
+  go s.toList []
+
+def hexDigit (n : Nat) : Char := if n < 10 then Char.ofNat (48+n) else Char.ofNat (87+n)
+
+def hex (b : List UInt8) : String :=
+  String.mk (b.flatMap fun x => [hexDigit (x.toNat / 16), hexDigit (x.toNat % 16)])
+
+def md5Of (b : List UInt8) : String := Md5.hex (ByteArray.mk b.toArray)
+
+def hexList (j : Json) (f : String) : Except String (List (List UInt8)) := do
+  (← strList j f).mapM unhex
+
+def bits (l : List Bool) : String := String.mk (l.map fun b => if b then '1' else '0')
+
+def opHashStream (j : Json) : Except String Json := do
+  let name ← str j "name"
+  let cs ← hexList j "chunks"
+  let s := Hash.runStream name cs
+  pure (Json.mkObj [("fed", hex s.fed), ("total", s.total), ("md5", md5Of s.fed),
+    ("passed", Json.arr (s.passed.map (fun c => Json.str (hex c))).toArray)])
+
+def opIsTextTable (j : Json) : Except String Json := do
+  let m ← nat j "maxlen"
+  let rows := (List.range m).flatMap fun l0 =>
+    let len := l0 + 1
+    (List.range (len + 1)).map fun n =>
+      Hash.isTextBlock (List.replicate n (1 : UInt8) ++ List.replicate (len - n) (97 : UInt8))
+  pure (Json.mkObj [("table", bits rows)])
+
+def opTextChars (_ : Json) : Except String Json :=
+  pure (Json.mkObj [("chars", bits ((List.range 256).map fun n => Hash.isTextChar (UInt8.ofNat n)))])
+
+def opIsTextBlock (j : Json) : Except String Json := do
+  let bs ← hexList j "blocks"
+  pure (Json.mkObj [("r", bits (bs.map Hash.isTextBlock))])
+
+def opDos2Unix (j : Json) : Except String Json := do
+  let bs ← hexList j "data"
+  pure (Json.mkObj [("r", Json.arr (bs.map (fun b => Json.str (hex (Hash.dos2unix b)))).toArray),
+    ("u2d", Json.arr (bs.map (fun b => Json.str (hex (Hash.unix2dos b)))).toArray)])
+
 def kindOf (s : String) : Except String Merge.Kind :=
   match s with
   | "add" => pure .add | "remove" => pure .remove | "change" => pure .change
@@ -41,6 +95,11 @@ def opMerge (j : Json) : Except String Json := do
 def dispatch (j : Json) : Except String Json := do
   match (← str j "op") with
   | "merge" => opMerge j
+  | "hashstream" => opHashStream j
+  | "istext_table" => opIsTextTable j
+  | "textchars" => opTextChars j
+  | "istextblock" => opIsTextBlock j
+  | "dos2unix" => opDos2Unix j
   | "ping" => pure (Json.mkObj [("pong", true)])
   | op => throw s!"unknown op {op}"
 
